@@ -555,6 +555,7 @@ func c16(c *Ctx) {
 			}
 		}
 	}
+	errorsExamined(c, "R7.errors-examined", "transfer slots", []string{"portalwire"}, ".handleOffer", ".processOffer", ".offer", ".offerWorker", ".GossipAndReturnPeers", "(*portalwire.utpController).", "(*portalwire.ReleasePermit).")
 }
 
 func containsFn(fs []*ssa.Function, f *ssa.Function) bool {
